@@ -298,10 +298,10 @@ c.ensures("result/own-future-resolved-once",
           f"implies({RI} and old({WID} in self.pending_work_items), "
           f"G.fut_n_exc[{FUT}] + G.fut_n_res[{FUT}] == old(G.fut_n_exc[{FUT}] + G.fut_n_res[{FUT}]) + 1)", prop=["C03", "C04"])
 c.ensures("result/exception-as-sent",
-          f"implies({RI} and old({WID} in self.pending_work_items) and truthy(result_item.exception), "
+          f"implies({RI} and old({WID} in self.pending_work_items) and result_item.exception is not None, "
           f"G.fut_n_exc[{FUT}] == old(G.fut_n_exc[{FUT}]) + 1 and G.fut_exc[{FUT}] is result_item.exception)", prop=["C03", "C04"])
 c.ensures("result/value-as-sent",
-          f"implies({RI} and old({WID} in self.pending_work_items) and not truthy(result_item.exception), "
+          f"implies({RI} and old({WID} in self.pending_work_items) and result_item.exception is None, "
           f"G.fut_n_res[{FUT}] == old(G.fut_n_res[{FUT}]) + 1 and G.fut_res[{FUT}] is result_item.result)", prop=["C03", "C04"])
 c.ensures("result/no-other-future-touched",
           f"implies({RI} and old({WID} in self.pending_work_items), " + OTHERS_UNTOUCHED.format(fut=FUT) + ")", prop=["C03", "C04"])
@@ -326,7 +326,7 @@ c.ensures("pid/exit-lock-released-once-and-joined",
 c.ensures("pid/popped-under-management-lock",
           f"implies({PID}, log_arg('acquire', 0, 0) is self.processes_management_lock and log_pos('acquire', 0) == 0)", prop="C07")
 c.ensures("pid/respawn-warns-and-holds-the-management-lock",
-          f"implies({PID} and log_count('call:ProcessPoolExecutor._adjust_process_count') >= 1, log_count('warn') == 1 and "
+          f"implies({PID} and log_count('call:ProcessPoolExecutor._adjust_process_count') >= 1, log_count('warn') + log_count('warn_raised') == 1 and "
           "log_count('call:ProcessPoolExecutor._adjust_process_count') == 1)", prop="C07")
 c.at_call("loky.process_executor:ProcessPoolExecutor._adjust_process_count", "under-management-lock",
           "held(log_arg('deref', 0, 1)._processes_management_lock)", prop=["C07", "C08"])
@@ -336,11 +336,19 @@ c.ensures("pid/respawns-whenever-work-waits-and-the-pool-is-short",
           f"implies({PID} and log_count('deref') == 1 and log_arg('deref', 0, 1) is not None and {WAITING} and "
           "old(len(self.processes)) - ite(old(result_item in self.processes), 1, 0) < log_arg('deref', 0, 1)._max_workers, "
           "log_count('call:ProcessPoolExecutor._adjust_process_count') == 1)", prop="C07")
-c.ensures("pid/reads-the-executor-only-when-work-waits", f"implies({PID}, (log_count('deref') == 1) == {WAITING})", prop="C07")
+# with no worker left and work waiting, somebody has to start a worker again - also when the executor object itself has been collected meanwhile
+c.ensures("pid/work-waiting-with-no-worker-left-is-never-abandoned",
+          f"implies({PID} and {WAITING} and len(self.processes) == 0 and log_count('raise:ProcessPoolExecutor._adjust_process_count') == 0, "
+          "log_count('call:ProcessPoolExecutor._adjust_process_count') == 1)", prop="C07")
+c.replay_for("pid/work-waiting-with-no-worker-left-is-never-abandoned", "respawn_after_executor_collected")
+c.ensures("pid/reads-the-executor-only-when-work-waits", f"implies({PID}, (log_count('deref') == 1) == {WAITING})", prop=["C07", "C08"])
 # the only exception the manager thread may meet here is a failed spawn of the replacement worker (anything else kills the thread and every pending future hangs)
 c.raises("result/only-a-failed-spawn-from-the-respawn", "OSError", post=f"{PID}")
 c.raises_only("result/nothing-but-a-failed-spawn-escapes")
-c.replay_for("result/nothing-but-a-failed-spawn-escapes", "respawn_after_shutdown_nowait")
+c.warn_may_raise = True          # the parent may run with warnings as errors (-W error, pytest): the respawn warning is issued from the manager thread
+c.replay_for("result/nothing-but-a-failed-spawn-escapes", "respawn_warning_as_error")
+c.replay_for("result/exception-as-sent", "falsy_exception")
+c.replay_for("result/value-as-sent", "falsy_exception")
 c.modifies("contents(self.pending_work_items)", "contents(self.running_work_items)", "contents(self.processes)",
            "G.fut_n_exc", "G.fut_n_res", "G.fut_exc", "G.fut_exc_cls", "G.fut_res", "G.sem_released", "G.joined", "G.started", "G.pid_live", "G.proc_of_pid")
 c.assumes("A-atomic")
@@ -460,7 +468,7 @@ i.inv("remaining-are-original", "forall(Int, lambda k: implies(k in self.process
 i.variant("len(self.processes)")
 
 # ---------------------------------------------------------------- terminate_broken (C02)
-c = M.contract(f"{EMT}.terminate_broken", props=["C02"])
+c = M.contract(f"{EMT}.terminate_broken", props=["C02", "C09"])
 c.param("self", T.Ref(EMT)).param("bpe", T.Exc())
 # a pending future is resolved by this call (failed with bpe) or was found already resolved by its owner (cancelled / finished: set_exception refused)
 ALL_FAILED = ("forall(Int, lambda k: implies(old(k in self.pending_work_items), "
@@ -636,6 +644,15 @@ c.raises_only("manager/no-exception")
 c.modifies("self.thread_wakeup", "self.shutdown_lock", "self.executor_reference", "self.executor_flags", "self.processes", "self.call_queue", "self.result_queue",
            "self.work_ids_queue", "self.pending_work_items", "self.running_work_items", "self.processes_management_lock", "self.daemon", "G.referent")
 
+# the callback run when the executor object is collected: the manager thread must be woken (it then sees `executor is None` and shuts down)
+c = S.contract(f"{PE}:{EMT}.__init__.weakref_cb", props=["C05"])
+c.param("_", T.Obj).param("thread_wakeup", T.Ref("_ThreadWakeup")).param("shutdown_lock", T.Ref("threading.Lock"))
+c.ensures("collected/wakes-the-manager-under-the-shutdown-lock",
+          "log_count('call:_ThreadWakeup.wakeup') == 1 and log_arg('call:_ThreadWakeup.wakeup', 0, 1) is thread_wakeup and "
+          "log_arg('acquire', 0, 0) is shutdown_lock and log_pos('acquire', 0) < log_pos('call:_ThreadWakeup.wakeup', 0) and log_tags()[-1] == 'release'")
+c.raises("collected/pipe-error-of-the-wakeup-propagates-with-the-lock-released", "Exception", post="log_tags()[-1] == 'release'")
+c.modifies()
+
 # ---------------------------------------------------------------- submit / _ensure_executor_running / shutdown
 c = M.contract(f"{PPE}._start_executor_manager_thread", props=["C05", "C02"])
 c.param("self", T.Ref(PPE))
@@ -740,12 +757,16 @@ c.ensures("shutdown/waits-for-the-manager-when-asked",
           "log_arg('thread_join', 0, 0) is old(self._executor_manager_thread) and log_before('call:_ThreadWakeup.wakeup', 'thread_join'))", prop=["C05", "C06"])
 c.ensures("shutdown/no-join-when-not-waiting", "implies(not wait, log_count('thread_join') == 0)", prop="C05")
 c.ensures("shutdown/drops-fd-holding-references-once-the-manager-thread-is-gone",
-          "self._executor_manager_thread is None and self._executor_manager_thread_wakeup is None and "
-          "implies(wait or old(self._executor_manager_thread) is None, self._call_queue is None and "
-          "self._result_queue is None and self._processes_management_lock is None)", prop="C20")
+          "implies(wait or old(self._executor_manager_thread) is None, self._executor_manager_thread is None and self._executor_manager_thread_wakeup is None and "
+          "self._call_queue is None and self._result_queue is None and self._processes_management_lock is None)", prop="C20")
 c.ensures("shutdown/keeps-what-a-still-running-manager-thread-needs-to-replace-a-worker",
           "implies(not wait and old(self._executor_manager_thread) is not None, self._call_queue is old(self._call_queue) and "
           "self._result_queue is old(self._result_queue) and self._processes_management_lock is old(self._processes_management_lock))", prop=["C05", "C07"])
+# a later shutdown(wait=True) / shutdown(kill_workers=True) must still be able to wake and join a manager thread that an earlier shutdown(wait=False) left running
+c.ensures("shutdown/keeps-its-handle-on-a-manager-thread-it-did-not-join",
+          "implies(not wait and old(self._executor_manager_thread) is not None, self._executor_manager_thread is old(self._executor_manager_thread) and "
+          "self._executor_manager_thread_wakeup is old(self._executor_manager_thread_wakeup))", prop=["C05", "C06"])
+c.replay_for("keeps-its-handle-on-a-manager-thread-it-did-not-join", "second_shutdown_after_nowait")
 c.raises("shutdown/only-pipe-errors-from-wakeup", "Exception")
 c.modifies("self._flags.shutdown", "self._flags.kill_workers", "self._executor_manager_thread", "self._executor_manager_thread_wakeup",
            "self._call_queue", "self._result_queue", "self._processes_management_lock")
